@@ -570,14 +570,22 @@ func TestIdentScripts(t *testing.T) {
 	shapes := []string{"%c", "task%c", "%ctask", "task_%c", "a%cb", "task%ctask"}
 	var idx uint64
 	seen := map[string]bool{}
+	var names []string
 	for _, l := range letters {
 		for _, shape := range shapes {
+			names = append(names, fmt.Sprintf(shape, l))
+		}
+	}
+	// words reserved elsewhere (Go, shell, flags) are ordinary names here
+	names = append(names, gen.ReservedWords...)
+	for _, name := range names {
+		{
 			for _, tpl := range identTemplates {
 				idx++
 				if idx-1 < lo || idx-1 >= hi {
 					continue
 				}
-				x := strings.ReplaceAll(tpl, "%s", fmt.Sprintf(shape, l))
+				x := strings.ReplaceAll(tpl, "%s", name)
 				s.Progress(idx-1, []byte(x))
 				s.Tick()
 				s.Class("space_ident_scripts")
@@ -597,7 +605,7 @@ func TestIdentScripts(t *testing.T) {
 }
 
 func identScriptsTotal() uint64 {
-	return uint64((len(gen.LeadLetters) + len(gen.WideLetters)) * 6 * len(identTemplates))
+	return uint64(((len(gen.LeadLetters)+len(gen.WideLetters))*6 + len(gen.ReservedWords)) * len(identTemplates))
 }
 
 // TestBytes: byte strings biased to the token alphabet, NUL, invalid UTF-8, long lines,
